@@ -45,7 +45,7 @@ func (r *RNG) Bytes(n int) []byte {
 	}
 	return b
 }
-func (r *RNG) Fork() *RNG { return NewRNG(r.U64()) }
+func (r *RNG) Fork() *RNG                { return NewRNG(r.U64()) }
 func PickU64(r *RNG, xs []uint64) uint64 { return xs[r.Intn(len(xs))] }
 func PickI64(r *RNG, xs []int64) int64   { return xs[r.Intn(len(xs))] }
 
@@ -102,10 +102,10 @@ func Hex(b []byte) string {
 func HexStr(b []byte) string { return `(hx "` + hex.EncodeToString(b) + `")` }
 
 // Str renders an arbitrary byte string as bytes too (Coq string escapes are avoided).
-func List(xs []string) string { return "[" + strings.Join(xs, "; ") + "]" }
-func Pair(a, b string) string { return "(" + a + ", " + b + ")" }
+func List(xs []string) string   { return "[" + strings.Join(xs, "; ") + "]" }
+func Pair(a, b string) string   { return "(" + a + ", " + b + ")" }
 func Tuple(xs ...string) string { return "(" + strings.Join(xs, ", ") + ")" }
-func Some(x string) string { return "(Some " + x + ")" }
+func Some(x string) string      { return "(Some " + x + ")" }
 func OptZ(ok bool, v int64) string {
 	if !ok {
 		return "None"
